@@ -37,7 +37,7 @@ def run(ctx):
                "C03", min_entries=70, min_guards=30)
     rows.selfcheck()
     rows.check_module(ctx, "C03-R1", VOL, min_uses=20)
-    rows.check_module(ctx, "C03-R1", BORDER, min_uses=3)
+    rows.check_module(ctx, "C03-R1", BORDER, min_uses=1)
     t1_tables(ctx)
     p1_maps(ctx)
     o1_border(ctx)
